@@ -383,8 +383,19 @@ func (sim *Sim) runFree(enc codec.Encoder) {
 	if cfg.PeerRead == 1 {
 		slow = 300
 	}
-	if cfg.PeerRead != 2 && cfg.PeerRead != 4 {
+	if cfg.PeerRead != 2 && cfg.PeerRead != 4 && cfg.PeerRead != 5 {
 		close(sim.peerStart)
+	}
+	if cfg.PeerRead == 5 {
+		// the peer stops reading for longer than the connection's idle limit, then drains everything
+		pause := 1600 * time.Millisecond
+		if cfg.ReadTimeout > 1 {
+			pause = time.Duration(cfg.ReadTimeout)*time.Second + 600*time.Millisecond
+		}
+		go func() {
+			time.Sleep(pause)
+			close(sim.peerStart)
+		}()
 	}
 	go sim.peerReader(slow)
 	if cfg.Immediate == 0 {
